@@ -200,7 +200,8 @@ func GetOrderedPkList(image *types.RecordImage, row types.RowImage, dbType types
 
 	for _, pkName := range pkColumnNameListByOrder {
 		for _, col := range pkColumnNameListNoOrder {
-			if strings.Index(col.ColumnName, pkName) > -1 {
+			// the key column of that name, not every key column whose name contains it (id in order_id)
+			if strings.EqualFold(col.ColumnName, DelEscape(pkName, dbType)) {
 				pkFields = append(pkFields, col)
 			}
 		}
